@@ -7,13 +7,15 @@
 // member attempts guarded writes (time window, id window, member priority, dc-location data) and
 // timestamp requests. Ground truth = etcd's committed history of the root (revision order).
 // Monitors:
-//  (1) every campaign reported successful created the leader key at its revision while it was absent;
-//  (2) at quiescent points at most one live contender has Check()==true and, if so, it is the
-//      stored record's owner (suspended after an external deletion, see DESIGN 2.5);
-//  (3) every committed write to a leader-guarded key was issued by the member whose value was the
-//      stored leader record just before that revision;
-//  (4) after Resign returned / after the harness saw Check()==false, no timestamp is granted by
-//      that member until it wins a campaign again.
+//
+//	(1) every campaign reported successful created the leader key at its revision while it was absent;
+//	(2) at quiescent points at most one live contender has Check()==true and, if so, it is the
+//	    stored record's owner (suspended after an external deletion, see DESIGN 2.5);
+//	(3) every committed write to a leader-guarded key was issued by the member whose value was the
+//	    stored leader record just before that revision;
+//	(4) after Resign returned / after the harness saw Check()==false, no timestamp is granted by
+//	    that member until it wins a campaign again.
+//
 // A gate-scheduled sub-scenario parks the old holder's window save while ownership changes.
 // Level B: real server: after ResetLeader every metadata RPC answers not-leader and Tso fails.
 package main
@@ -51,18 +53,18 @@ type span struct {
 }
 
 type wrun struct {
-	r        *ev.Run
-	e        *etcdx.Etcd
-	w        *tsow.World
-	rng      *rand.Rand
-	ids      []id.Allocator
-	kms      []*encryptionkm.KeyManager // encryption key managers (guarded key "encryption_keys")
-	events   []string
-	noGrant  map[int][]span // member idx*1000+gen -> spans
-	extDel   bool
-	campOK   []campRec
-	mu       sync.Mutex
-	values   map[string]int // member value -> idx
+	r       *ev.Run
+	e       *etcdx.Etcd
+	w       *tsow.World
+	rng     *rand.Rand
+	ids     []id.Allocator
+	kms     []*encryptionkm.KeyManager // encryption key managers (guarded key "encryption_keys")
+	events  []string
+	noGrant map[int][]span // member idx*1000+gen -> spans
+	extDel  bool
+	campOK  []campRec
+	mu      sync.Mutex
+	values  map[string]int // member value -> idx
 }
 
 type campRec struct {
@@ -807,7 +809,7 @@ func levelB(r *ev.Run, rng *rand.Rand) {
 
 func main() {
 	r := ev.New("C03", "exploration")
-	r.Rule("level A: worlds of 2-4 contenders on one leader key, 25-40 PRNG events from {campaign(+/-keep-alive), resign, stop/start keep-alive, natural expiry wait, owner deletes key, crash+restart, external delete (late)}, guarded writes + timestamp requests by every member after every event; distinct = event string per world. gated: old holder's window save + id window txn parked while the record is revoked / deleted / resigned and a new member campaigns, all release orders x start orders. slow grant: member a's LeaseGrant reply delayed by 35/60/80% of the lease, no keep-alive, member b campaigns until it wins, then a is probed. level B: real server resign rounds hammered with metadata RPCs")
+	r.Rule("level A: worlds of 2-4 contenders on one leader key, 25-40 PRNG events from {campaign(+/-keep-alive), resign, stop/start keep-alive, natural expiry wait, owner deletes key, crash+restart, external delete (late)}, guarded writes + timestamp requests by every member after every event; distinct = event string per world. gated: old holder's window save + id window txn parked while the record is revoked / deleted / resigned and a new member campaigns, all release orders x start orders. queued behind save: a's reset saves the window with the reply held back, requests issued meanwhile, a's lease expires, b campaigns and serves, reply released. slow grant: member a's LeaseGrant reply delayed by 35/60/80% of the lease, no keep-alive, member b campaigns until it wins, then a is probed. level B: real server resign rounds hammered with metadata RPCs")
 	r.Assume("ground truth is etcd's committed history in revision order; external deletion of a live leader key is only used to judge guarded writes (3), never (2)/(4)")
 	r.Assume("a member whose lease Grant failed keeps Check()==true until its next campaign (lease.go); Grant failures are not injected, see DESIGN C03 Limits")
 	srv.Quiet()
@@ -831,6 +833,8 @@ func main() {
 	wg.Add(1)
 	sgSeed := rng.Int63()
 	go func() { defer wg.Done(); slowGrant(r, e, sgSeed) }()
+	wg.Add(1)
+	go func() { defer wg.Done(); queuedBehindSave(r, e, sgSeed+1000) }()
 	for wi := 0; wi < nworlds; wi++ {
 		wg.Add(1)
 		sem <- struct{}{}
